@@ -32,7 +32,8 @@ ASSUMPTIONS = ["reference framing decides which byte ranges are frames; a frame 
 REQUIRED_OBS = ["unknown_type_delivered", "unknown_c0_sub_delivered", "unknown_ext_delivered",
                 "compared_with_reference", "malformed_reset_recovered", "long_stride_decoded",
                 "reframed_bodies", "equal_check_byte_pairs",
-                "streaks_of_rejecting_connections_recovered"]
+                "streaks_of_rejecting_connections_recovered",
+                "flips_in_the_uncovered_header_bytes"]
 BUDGET = {"quick": 100, "thorough": 1500}
 
 REGISTERED = {4: {0x1F, 0x2A, 0x2B, 0x2C, 0x2D, 0x36, 0x37}, 5: {0x1F, 0xC0}}
@@ -68,6 +69,14 @@ def cases(tier, seed):
         yield {"k": "collide", "gen": gen, "seed": rnd.randrange(1 << 30),
                "n": 12 if tier == "quick" else 400}
     yield {"k": "stride", "seed": rnd.randrange(1 << 30), "n": 60 if tier == "quick" else 600}
+    # every single-bit flip in the bytes in front of the check-value-covered part (frame
+    # markers, the AT5 length words): whatever such bytes mean, nothing else is delivered
+    for gen in (4, 5):
+        names = sorted(F.catalogue(gen))
+        pick = names if tier == "thorough" else [names[(seed + 3 * j) % len(names)]
+                                                 for j in range(3)]
+        for name in pick:
+            yield {"k": "hdrflip", "gen": gen, "kind": name}
     # many connections in a row that each end in rejected input
     # (own generator: the cases that follow keep the seeds they had before these were added)
     rnd_streak = random.Random(f"C17/streak/{tier}/{seed}")
@@ -377,6 +386,20 @@ def run_case(case):
                 judge_stream(gen, b"".join(frames), viol, obs, f"type {t:#x} x{len(frames)}")
                 n += len(frames)
         sample = {"gen": gen, "types": case["types"][:4], "lens": case["lens"][:6]}
+    elif k == "hdrflip":
+        gen = case["gen"]
+        raw = F.catalogue(gen)[case["kind"]]
+        s0, _e0 = F.covered_span(gen, raw)
+        tail = F.probe_frame(gen, 91)
+        for bit in range(s0 * 8):
+            b = bytearray(raw)
+            b[bit // 8] ^= 0x80 >> (bit % 8)
+            # alone, and with an intact frame behind it
+            judge_stream(gen, bytes(b) + (tail if bit % 2 else b""), viol, obs,
+                         f"{case['kind']} bit {bit} of the uncovered header flipped")
+            n += 1
+        obs["flips_in_the_uncovered_header_bytes"] = n
+        sample = {"gen": gen, "kind": case["kind"], "flips": n}
     elif k == "ext":
         gen = case["gen"]
         known, unknown = [], []
